@@ -161,6 +161,9 @@ impl Builder {
 
         let f = Arc::new(f);
 
+        #[cfg(feature = "verif")]
+        rt::verif::iteration_event("start", i, Some(&execution.path));
+
         let start = Instant::now();
         loop {
             if i % self.checkpoint_interval == 0 {
@@ -201,6 +204,9 @@ impl Builder {
                 rt::thread_done();
             });
 
+            #[cfg(feature = "verif")]
+            rt::verif::iteration_event("end", i, Some(&execution.path));
+
             execution.check_for_leaks();
 
             i += 1;
@@ -211,7 +217,11 @@ impl Builder {
             _span = tracing::info_span!(parent: None, "iter", message = i).entered();
             if let Some(next) = execution.step() {
                 execution = next;
+                #[cfg(feature = "verif")]
+                rt::verif::iteration_event("step", i, Some(&execution.path));
             } else {
+                #[cfg(feature = "verif")]
+                rt::verif::iteration_event("done", i - 1, None);
                 info!(parent: None, "Completed in {} iterations", i - 1);
                 return;
             }
